@@ -405,8 +405,10 @@ func vfReadHitEOF(log []vfReadRec) bool {
 
 // ---- generator ----
 
-var vfStreamCTs = []string{"application/connect+proto", "application/connect+json", "application/grpc", "application/grpc+proto", "application/grpc-web+proto", "application/grpc-web"}
-var vfUnaryCTs = []string{"application/proto", "application/json", "text/plain"}
+// (media types are case-insensitive: the spelled-out variants are the same protocols)
+var vfStreamCTs = []string{"application/connect+proto", "application/connect+json", "application/grpc", "application/grpc+proto", "application/grpc-web+proto", "application/grpc-web",
+	"Application/Connect+Proto", "APPLICATION/GRPC", "application/GRPC-Web+proto"}
+var vfUnaryCTs = []string{"application/proto", "application/json", "text/plain", "Application/JSON"}
 
 func vfGenBody(t *rapid.T, label string, response bool) vfBodySpec {
 	var spec vfBodySpec
@@ -592,6 +594,8 @@ func TestVerifC14Bodies(t *testing.T) {
 // a body): bodies that end part-way through an envelope prefix, several streams, resets - one partial event with the
 // bytes actually seen, no event twice. (Borrows the exchange driver and oracle of the C15 harness.)
 func TestVerifC14H2Bodies(t *testing.T) {
+	vfPartialRequired = true
+	defer func() { vfPartialRequired = false }()
 	verifkit.Run(t, "C14H2Bodies", verifkit.Spec[vfExchange]{
 		Gen: func(t *rapid.T) vfExchange {
 			ex := vfGenExchange(t)
